@@ -47,8 +47,13 @@ RMS = ('RNE', 'RTZ', 'RTP', 'RTN')
 #                        exact (REAL / INTEGER) integer arithmetic only with results wider than 16 bits and no abs/min/max
 #   minmax-then-store    known/list-minmax-after-widening-store: once min(xs)/max(xs) was taken, nothing stores into xs
 #                        (or a list that may share its cells) any more
+#   int-format-neg-zero  (root cause = open C14 finding `neg-zero-from-exact-op`: format inference gives `-x` / `x * y` over
+#                        integer formats an integer format, the backend stores it in an integer type and the IEEE `-0` the
+#                        interpreter returns under a float / REAL context is lost)  -- negation only of, and multiplication only
+#                        with, a value whose storage is surely floating point (see Gen.sf_of)
 #   iter-elim-body-writes  (fixed in the tree; kept switchable) writes into a list a zip/enumerate loop iterates
-EXCLUDE_KNOWN: set = {'float-to-int-range', 'fp32-literal', 'small-int-ops', 'minmax-then-store'}
+EXCLUDE_KNOWN: set = {'float-to-int-range', 'fp32-literal', 'small-int-ops', 'minmax-then-store', 'int-format-neg-zero'}
+SF_CALLS = ('sqrt', 'fma', 'floor', 'ceil', 'trunc', 'nearbyint', 'roundint', 'copysign', 'fdim')   # result has the context's format
 NARROW_INTS = ('s8', 'u8', 's16', 'u16')
 CTX_TEXT = {'s8': 'fp.SINT8', 's16': 'fp.SINT16', 's32': 'fp.SINT32', 's64': 'fp.SINT64',
             'u8': 'fp.UINT8', 'u16': 'fp.UINT16', 'u32': 'fp.UINT32', 'u64': 'fp.UINT64',
@@ -129,9 +134,10 @@ class Ctx:
 
 # value types
 class Sc:
-    def __init__(self, kind, rng=None):
+    def __init__(self, kind, rng=None, sf=False):
         self.kind = kind
         self.rng = rng              # (lo, hi): the value is known to be finite and inside this range (clamped copies)
+        self.sf = sf                # the inferred format is surely an IEEE one (has -0): its storage is floating point
 
     def key(self):
         return ('S', self.kind)
@@ -143,28 +149,31 @@ class Bo:
 
 
 class Li:
-    def __init__(self, elem, lb, exact=False):
+    def __init__(self, elem, lb, exact=False, sf=False):
         self.elem = elem            # kind
         self.lb = lb                # known lower bound on the length
         self.exact = exact          # length known exactly (pinned / literal)
+        self.sf = sf                # elements surely have floating-point storage
 
     def key(self):
         return ('L', self.elem)
 
 
 class LL:
-    def __init__(self, elem, lb, inner_lb):
+    def __init__(self, elem, lb, inner_lb, sf=False):
         self.elem = elem
         self.lb = lb
         self.inner_lb = inner_lb
+        self.sf = sf
 
     def key(self):
         return ('LL', self.elem)
 
 
 class Tu:
-    def __init__(self, kinds):
+    def __init__(self, kinds, sfs=None):
         self.kinds = list(kinds)    # scalar kinds
+        self.sfs = list(sfs) if sfs is not None else [False] * len(self.kinds)
 
     def key(self):
         return ('T', tuple(self.kinds))
@@ -193,6 +202,7 @@ class Helper:
         self.mutates = mutates      # set of param names whose cells the body writes
         self.minlen = minlen
         self.kind = kind
+        self.ret_sf = False         # the returned scalar / the returned list's elements surely have floating-point storage
 
 
 class Fn:
@@ -274,6 +284,82 @@ class Gen:
             fn.next_group += 1
             fn.alias_groups[name] = g
         fn.nostore_groups.add(g)
+
+    def sf_of(self, fn, text, C):
+        """Is the value of expression `text` (evaluated under C) surely held in floating-point storage?  Conservative
+        (False is always safe).  Format inference keeps exact integer formats through round / cast / neg / abs / + - * /
+        min / max / sum / logb, so only an IEEE-format leaf (a binary32/binary64 parameter, a non-integer constant) or an
+        operation rounded to the context's own format makes a result float."""
+        import ast as _ast
+        if not (C.is_float or C.kind == 'real'):
+            return False
+        try:
+            tree = _ast.parse(text.strip(), mode='eval').body
+        except SyntaxError:
+            return False
+        hret = {h.name: h for h in self.helpers}
+
+        def lst(n):
+            if isinstance(n, _ast.Name):
+                t = fn.env.get(n.id)
+                return isinstance(t, (Li, LL)) and t.sf
+            if isinstance(n, _ast.Subscript) and not isinstance(n.slice, _ast.Slice):
+                return lst(n.value)
+            return False
+
+        def go(n):
+            if isinstance(n, _ast.Name):
+                t = fn.env.get(n.id)
+                return isinstance(t, Sc) and t.sf
+            if isinstance(n, _ast.Constant):
+                return isinstance(n.value, float) and n.value != int(n.value) and 1e-30 < abs(n.value) < 1e30
+            if isinstance(n, _ast.UnaryOp):
+                return go(n.operand)
+            if isinstance(n, _ast.BinOp):
+                if isinstance(n.op, _ast.Div):
+                    return C.is_float
+                return go(n.left) or go(n.right)
+            if isinstance(n, _ast.IfExp):
+                return go(n.body) or go(n.orelse)
+            if isinstance(n, _ast.Subscript):
+                return lst(n.value) if not isinstance(n.slice, _ast.Slice) else False
+            if isinstance(n, _ast.Call):
+                f = n.func
+                name = f.attr if isinstance(f, _ast.Attribute) else getattr(f, 'id', None)
+                if name in SF_CALLS:
+                    return C.is_float
+                if name in ('round', 'cast', 'abs'):
+                    return go(n.args[0])
+                if name in ('min', 'max'):
+                    return lst(n.args[0]) if len(n.args) == 1 else any(go(a) for a in n.args)
+                if name == 'sum':
+                    return lst(n.args[0])
+                if name in ('fst', 'snd'):
+                    t = fn.env.get(getattr(n.args[0], 'id', None))
+                    return isinstance(t, Tu) and t.sfs[0 if name == 'fst' else 1]
+                if name in hret:
+                    return hret[name].ret_sf
+                return False
+            return False
+        return go(tree)
+
+    def no_negzero(self):
+        return 'int-format-neg-zero' in EXCLUDE_KNOWN
+
+    def mul_ok(self, fn, C, a, b):
+        """May `a * b` be generated under C?  (0 * negative = -0 is lost when both operands have integer formats.)"""
+        if not self.no_negzero() or not (C.is_float or C.kind == 'real'):
+            return True
+        if self.sf_of(fn, a, C) or self.sf_of(fn, b, C):
+            return True
+        self.excl('int-format-neg-zero')
+        return False
+
+    def pick_op(self, fn, C, a, b, ops):
+        op = self.ch.choice(ops)
+        if op == '*' and not self.mul_ok(fn, C, a, b):
+            op = '+'
+        return op
 
     def int_round_ok(self, fn, v, C):
         """May scalar variable v be an operand (possibly through fp.round) under integer context C?"""
@@ -463,9 +549,9 @@ class Gen:
         if k == 'atom':
             return self.atom(fn, C)
         if k == 'bin':
-            op = ch.choice(['+', '-', '*'] if C.is_int else ['+', '-', '*', '/', '+', '*'])
             a, _ = self.operand(fn, C, d - 1)
             b, _ = self.operand(fn, C, d - 1)
+            op = self.pick_op(fn, C, a, b, ['+', '-', '*'] if C.is_int else ['+', '-', '*', '/', '+', '*'])
             return f'({a} {op} {b})', kc
         if k == 'div':
             # integer division: positive literal divisor only (no trap, no division by zero)
@@ -475,6 +561,9 @@ class Gen:
             return f'({a} / {ch.choice(["1", "2", "3", "7", "10"])})', kc
         if k == 'neg':
             a, _ = self.operand(fn, C, d - 1)
+            if C.is_float and self.no_negzero() and not self.sf_of(fn, a, C):
+                self.excl('int-format-neg-zero')       # -(0) = -0 would be lost in integer storage
+                return None
             return f'(-{a})', kc
         if k == 'abs':
             if kc in ('u32', 'u64'):
@@ -602,6 +691,9 @@ class Gen:
             return leaf()
         if k == 'fneg':
             v = ch.choice(fl)
+            if self.no_negzero() and not fn.env[v].sf:
+                self.excl('int-format-neg-zero')
+                return None
             self.features.add('real-float-op')
             return f'{ch.choice(["(-", "abs("])}{v})', fn.env[v].kind
         if k == 'fminmax':
@@ -614,6 +706,9 @@ class Gen:
         a, ka = ra
         la, ha = RANGE[ka]
         if k == 'neg':
+            if C.kind == 'real' and self.no_negzero():
+                self.excl('int-format-neg-zero')
+                return None
             r = int_kind_of_range(-ha, -la)
             return (f'(-{a})', r) if self._exact_ok(r, C) else None
         if k == 'abs':
@@ -630,6 +725,9 @@ class Gen:
             self.features.add('minmax')
             return (f'{f}({a}, {b})', r) if self._exact_ok(r, C) else None
         op = ch.choice(['+', '-', '*'])
+        if op == '*' and C.kind == 'real' and self.no_negzero() and (la < 0 or lb < 0):
+            self.excl('int-format-neg-zero')           # 0 * negative = -0 under REAL, integer storage drops it
+            op = '+'
         if op == '+':
             lo, hi = la + lb, ha + hb
         elif op == '-':
@@ -674,6 +772,9 @@ class Gen:
             if isinstance(pt, Sc):
                 # argument kind must be contained in the parameter kind the body was generated for
                 cands = self.scalars(fn, lambda k: fits(k, pt.kind))
+                need_sf = pt.sf and self.no_negzero()
+                if need_sf:
+                    cands = [v for v in cands if fn.env[v].sf]
                 if cands and ch.bool(0.7):
                     args.append(ch.choice(cands))
                 else:
@@ -683,17 +784,23 @@ class Gen:
                             t = f'fp.round({t})'
                         else:
                             return None
+                    if need_sf and not self.sf_of(fn, t, C):
+                        if not cands:
+                            self.excl('int-format-neg-zero')
+                            return None
+                        t = ch.choice(cands)
                     args.append(t)
             elif isinstance(pt, Li):
                 need = h.minlen.get(pn, 0)
-                cands = self.lists(fn, lambda t: t.elem == pt.elem and t.lb >= need)
+                cands = self.lists(fn, lambda t: t.elem == pt.elem and t.lb >= need and (t.sf or not pt.sf or not self.no_negzero()))
                 if not cands:
                     return None
                 l = ch.choice(cands)
                 args.append(l)
                 passed_lists.append((pn, l))
             elif isinstance(pt, LL):
-                cands = self.vars_of(fn, lambda t: isinstance(t, LL) and t.elem == pt.elem and t.lb >= pt.lb and t.inner_lb >= pt.inner_lb)
+                cands = self.vars_of(fn, lambda t: isinstance(t, LL) and t.elem == pt.elem and t.lb >= pt.lb and t.inner_lb >= pt.inner_lb
+                                     and (t.sf or not pt.sf or not self.no_negzero()))
                 if not cands:
                     return None
                 l = ch.choice(cands)
@@ -787,7 +894,7 @@ class Gen:
                 return 'True'
             l = ch.choice(ls)
             v = fn.fresh('q')
-            fn.env[v] = Sc(fn.env[l].elem)
+            fn.env[v] = Sc(fn.env[l].elem, sf=fn.env[l].sf)
             t, kk = self.num(fn, C, 0)
             if join(kk, fn.env[l].elem) is None:
                 t = '0' if C.kind != 's8' else v
@@ -803,6 +910,36 @@ class Gen:
 
     # ------------------------------------------------------------------ list expressions
     def list_expr(self, fn, C: Ctx, d: int):
+        self._body_sf = False
+        r = self._list_expr(fn, C, d)
+        if r is not None:
+            r[1].sf = self.sf_list_of(fn, r[0], C)
+        return r
+
+    def sf_list_of(self, fn, text, C):
+        """Do the elements of list expression `text` surely have floating-point storage?"""
+        import ast as _ast
+        try:
+            n = _ast.parse(text.strip(), mode='eval').body
+        except SyntaxError:
+            return False
+        if isinstance(n, _ast.List):
+            return any(self.sf_of(fn, _ast.unparse(e), C) for e in n.elts)
+        if isinstance(n, _ast.Name):
+            t = fn.env.get(n.id)
+            return isinstance(t, Li) and t.sf
+        if isinstance(n, _ast.Subscript) and isinstance(n.value, _ast.Name):
+            t = fn.env.get(n.value.id)
+            return isinstance(t, (Li, LL)) and t.sf
+        if isinstance(n, _ast.ListComp):
+            return self._body_sf
+        if isinstance(n, _ast.Call) and isinstance(n.func, _ast.Name):
+            for h in self.helpers:
+                if h.name == n.func.id:
+                    return h.ret_sf
+        return False
+
+    def _list_expr(self, fn, C: Ctx, d: int):
         """(text, Li) of a fresh or aliased flat list, evaluated under C; or None."""
         ch = self.ch
         ls = self.lists(fn)
@@ -874,7 +1011,7 @@ class Gen:
         self.features.add('comprehension')
         if k == 'comp':
             l = ch.choice(cl)
-            fn.env[v] = Sc(fn.env[l].elem)
+            fn.env[v] = Sc(fn.env[l].elem, sf=fn.env[l].sf)
             body, kk = self.elem_body(fn, C, d, v)
             del fn.env[v]
             return f'[{body} for {v} in {l}]', Li(kk, fn.env[l].lb, fn.env[l].exact)
@@ -895,8 +1032,8 @@ class Gen:
             same = [l for l in cl if fn.env[l].exact and fn.env[l1].exact and fn.env[l].lb == fn.env[l1].lb]
             l2 = ch.choice(same) if same else l1
             w = fn.fresh('e')
-            fn.env[v] = Sc(fn.env[l1].elem)
-            fn.env[w] = Sc(fn.env[l2].elem)
+            fn.env[v] = Sc(fn.env[l1].elem, sf=fn.env[l1].sf)
+            fn.env[w] = Sc(fn.env[l2].elem, sf=fn.env[l2].sf)
             body, kk = self.elem_body(fn, C, d, v, w)
             del fn.env[v]
             del fn.env[w]
@@ -906,7 +1043,7 @@ class Gen:
             l = ch.choice(cl)
             w = fn.fresh('e')
             fn.env[v] = Sc('u8' if fn.env[l].exact else 's64')
-            fn.env[w] = Sc(fn.env[l].elem)
+            fn.env[w] = Sc(fn.env[l].elem, sf=fn.env[l].sf)
             body, kk = self.elem_body(fn, C, d, w, v if fn.env[l].exact else None)
             del fn.env[v]
             del fn.env[w]
@@ -923,9 +1060,10 @@ class Gen:
             b, _ = self.coerce(names[1], fn.env[names[1]].kind, C)
         else:
             b, _ = self.operand(fn, C, max(0, d - 1))
-        op = ch.choice(['+', '*', '-'])
+        op = self.pick_op(fn, C, a, b, ['+', '*', '-'])
         if ch.bool(0.5):
             a, b = b, a
+        self._body_sf = self.sf_of(fn, f'({a} {op} {b})', C)       # while the comprehension variables are in scope
         return f'({a} {op} {b})', C.kind
 
     # ------------------------------------------------------------------ statements
@@ -983,7 +1121,7 @@ class Gen:
             if kk is None:
                 return False
             out.append(f'{ind}{v} = {t}')
-            fn.env[v] = Sc(kk)
+            fn.env[v] = Sc(kk, sf=self.sf_of(fn, t, C))
         elif k == 'reassign' or k == 'aug':
             if C.kind in ('real', 'int'):
                 return False
@@ -996,13 +1134,17 @@ class Gen:
             v = ch.choice(vs)
             t, _ = self.operand(fn, C, ed - 1)
             if k == 'aug':
-                out.append(f'{ind}{v} {ch.choice(["+=", "-=", "*="])} {t}')
+                op = self.pick_op(fn, C, v, t, ['+', '-', '*'])
+                out.append(f'{ind}{v} {op}= {t}')
                 self.features.add('augassign')
+                fn.env[v].sf = fn.env[v].sf and self.sf_of(fn, f'({v} {op} {t})', C)
             else:
                 # an operation result: its kind is exactly the context's
                 u, _ = self.operand(fn, C, 0)
-                out.append(f'{ind}{v} = ({t} {ch.choice(["+", "*", "-"])} {u})')
+                op = self.pick_op(fn, C, t, u, ['+', '*', '-'])
+                out.append(f'{ind}{v} = ({t} {op} {u})')
                 self.features.add('reassign')
+                fn.env[v].sf = fn.env[v].sf and self.sf_of(fn, f'({t} {op} {u})', C)
         elif k == 'assignB':
             v = fn.fresh('b')
             out.append(f'{ind}{v} = {self.boolean(fn, C, ed - 1)}')
@@ -1049,7 +1191,7 @@ class Gen:
             v = fn.fresh('xss')
             out.append(f'{ind}{v} = [{", ".join(rows)}]')
             inner = min(fn.env[r.split('[')[0]].lb for r in rows)
-            fn.env[v] = LL(fn.env[a].elem, n, inner)
+            fn.env[v] = LL(fn.env[a].elem, n, inner, sf=all(fn.env[r.split('[')[0]].sf for r in rows))
             # every named row now has a second referrer
             g = fn.next_group
             fn.next_group += 1
@@ -1100,7 +1242,7 @@ class Gen:
             if ka is None or kb is None:
                 return False
             out.append(f'{ind}{v} = ({a}, {b})')
-            fn.env[v] = Tu([ka, kb])
+            fn.env[v] = Tu([ka, kb], [self.sf_of(fn, a, C), self.sf_of(fn, b, C)])
             self.features.add('tuple')
         elif k == 'untuple':
             tus = self.vars_of(fn, lambda t: isinstance(t, Tu))
@@ -1109,8 +1251,8 @@ class Gen:
             t = ch.choice(tus)
             a, b = fn.fresh('v'), fn.fresh('v')
             out.append(f'{ind}{a}, {b} = {t}')
-            fn.env[a] = Sc(fn.env[t].kinds[0])
-            fn.env[b] = Sc(fn.env[t].kinds[1])
+            fn.env[a] = Sc(fn.env[t].kinds[0], sf=fn.env[t].sfs[0])
+            fn.env[b] = Sc(fn.env[t].kinds[1], sf=fn.env[t].sfs[1])
             self.features.add('tuple-destructure')
         elif k == 'assert':
             v = self.scalars(fn)
@@ -1129,7 +1271,7 @@ class Gen:
                 return False
             if isinstance(h.ret, Sc):
                 v = fn.fresh('v')
-                fn.env[v] = Sc(h.ret.kind)
+                fn.env[v] = Sc(h.ret.kind, sf=h.ret_sf)
             elif isinstance(h.ret, Li):
                 v = fn.fresh('xs')
                 # a returned list may be one of the arguments
@@ -1138,7 +1280,7 @@ class Gen:
                     for (pn, pt), a in zip(h.params, t[len(h.name) + 1:-1].split(', ')):
                         if isinstance(pt, Li):
                             ret_alias = a
-                self.bind(fn, v, Li(h.ret.elem, h.ret.lb, False), alias_of=ret_alias)
+                self.bind(fn, v, Li(h.ret.elem, h.ret.lb, False, sf=h.ret_sf), alias_of=ret_alias)
             elif isinstance(h.ret, Bo):
                 v = fn.fresh('b')
                 fn.env[v] = Bo()
@@ -1166,10 +1308,12 @@ class Gen:
             both = fn.fresh('w') if ch.bool(0.5) and C.kind not in ('int', 'real') and not self.narrow(C) else None
             body1 = []
             r1 = self.block(fn, C, ind + '    ', ch.int(1, 3), depth - 1, body1, in_loop, in_with)
+            both_sf = []
             if both and not r1:
                 t, _ = self.operand(fn, C, ed - 1)
                 u, _ = self.operand(fn, C, 0)
                 body1.append(f'{ind}    {both} = ({t} + {u})')
+                both_sf.append(self.sf_of(fn, f'({t} + {u})', C))
             out += body1
             env1 = dict(fn.env)
             self.restore(fn, snap)
@@ -1179,7 +1323,9 @@ class Gen:
             if both and not r2:
                 t, _ = self.operand(fn, C, ed - 1)
                 u, _ = self.operand(fn, C, 0)
-                body2.append(f'{ind}    {both} = ({t} * {u})')
+                op = self.pick_op(fn, C, t, u, ['*'])
+                body2.append(f'{ind}    {both} = ({t} {op} {u})')
+                both_sf.append(self.sf_of(fn, f'({t} {op} {u})', C))
             out += body2
             env2 = dict(fn.env)
             self.restore(fn, snap)
@@ -1187,7 +1333,7 @@ class Gen:
             if r1 and r2:
                 return True
             if both and not r1 and not r2:
-                fn.env[both] = Sc(C.kind)
+                fn.env[both] = Sc(C.kind, sf=len(both_sf) == 2 and all(both_sf))
                 self.features.add('name-introduced-in-both-arms')
             # list lengths: keep lower bounds valid (lists are never shortened here, nothing to do)
         elif k == 'if1':
@@ -1204,7 +1350,7 @@ class Gen:
             if form == 'list':
                 l = ch.choice(ls)
                 out.append(f'{ind}for {x} in {l}:')
-                fn.env[x] = Sc(fn.env[l].elem)
+                fn.env[x] = Sc(fn.env[l].elem, sf=fn.env[l].sf)
             elif form == 'range':
                 n = ch.int(0, 4)
                 out.append(f'{ind}for {x} in range({n}):')
@@ -1217,15 +1363,15 @@ class Gen:
                 l2 = ch.choice(same) if same else l
                 y = fn.fresh('i')
                 out.append(f'{ind}for {x}, {y} in zip({l}, {l2}):')
-                fn.env[x] = Sc(fn.env[l].elem)
-                fn.env[y] = Sc(fn.env[l2].elem)
+                fn.env[x] = Sc(fn.env[l].elem, sf=fn.env[l].sf)
+                fn.env[y] = Sc(fn.env[l2].elem, sf=fn.env[l2].sf)
                 self.features.add('zip')
             else:
                 l = ch.choice(ls)
                 y = fn.fresh('i')
                 out.append(f'{ind}for {x}, {y} in enumerate({l}):')
                 fn.env[x] = Sc('u8' if fn.env[l].exact else 's64')
-                fn.env[y] = Sc(fn.env[l].elem)
+                fn.env[y] = Sc(fn.env[l].elem, sf=fn.env[l].sf)
                 self.features.add('enumerate')
             fn.protected.add(x)
             fz = (set(fn.frozen_groups), set(fn.frozen_names))
@@ -1278,8 +1424,12 @@ class Gen:
                     v = fn.fresh('v')
                     a, _ = self.operand(fn, C, 1)
                     b, _ = self.operand(fn, C, 0)
-                    out.append(f'{ind}{v} = ({a} / {b})' if ch.bool(0.5) else f'{ind}{v} = ({a} * {b} + {a})')
-                    fn.env[v] = Sc(C.kind)
+                    if ch.bool(0.5) or not self.mul_ok(fn, C, a, b):
+                        out.append(f'{ind}{v} = ({a} / {b})')
+                        fn.env[v] = Sc(C.kind, sf=True)
+                    else:
+                        out.append(f'{ind}{v} = ({a} * {b} + {a})')
+                        fn.env[v] = Sc(C.kind, sf=True)
             return r
         return False
 
@@ -1309,7 +1459,7 @@ class Gen:
             c = fn.fresh('c')
             lo_t = '0' if lo == 0 else f'(-{-lo})'
             out.append(f'{inner}{c} = ({v} if ({lo_t} <= {v} <= {hi}) else 0)')
-            fn.env[c] = Sc(fn.env[v].kind, rng=(lo, hi))
+            fn.env[c] = Sc(fn.env[v].kind, rng=(lo, hi), sf=fn.env[v].sf)
             fn.protected.add(c)
         self.features.add('clamped-float-for-int-round')
 
@@ -1347,7 +1497,8 @@ class Gen:
         lines = []
         if isinstance(pt, Li):
             need = h.minlen.get('p0', 1)
-            cands = self.lists(fn, lambda t: t.elem == ek and t.lb >= need)
+            need_sf = pt.sf and self.no_negzero()
+            cands = self.lists(fn, lambda t: t.elem == ek and t.lb >= need and (t.sf or not need_sf))
             if cands and ch.bool(0.6):
                 base = ch.choice(cands)
             else:
@@ -1359,16 +1510,20 @@ class Gen:
                 for _ in range(n):
                     a, _k = self.operand(fn, K, 1)
                     b, _k = self.operand(fn, K, 0)
-                    elems.append(f'({a} {ch.choice(["+", "*", "-"])} {b})' if K.kind not in NARROW_INTS else f'fp.round({a})')
+                    elems.append(f'({a} {self.pick_op(fn, K, a, b, ["+", "*", "-"])} {b})' if K.kind not in NARROW_INTS else f'fp.round({a})')
                 lines.append(f'{inner}{base} = [{", ".join(elems)}]')
-                self.bind(fn, base, Li(ek, n, True))
+                base_sf = any(self.sf_of(fn, e, K) for e in elems)
+                if need_sf and not base_sf:
+                    self.excl('int-format-neg-zero')
+                    return None
+                self.bind(fn, base, Li(ek, n, True, sf=base_sf))
             shape = ch.weighted([(5, 'name'), (4, 'rows'), (2, 'both')])
             arg = base
             readers = []
             if shape in ('name', 'both'):
                 al = fn.fresh('xs')
                 lines.append(f'{inner}{al} = {base}')
-                self.bind(fn, al, Li(ek, fn.env[base].lb, fn.env[base].exact), alias_of=base)
+                self.bind(fn, al, Li(ek, fn.env[base].lb, fn.env[base].exact, sf=fn.env[base].sf), alias_of=base)
                 arg = al if ch.bool(0.5) else base
                 readers.append(base if arg == al else al)
                 self.features.add('list-alias')
@@ -1376,7 +1531,7 @@ class Gen:
                 xss = fn.fresh('xss')
                 n_rows = ch.int(1, 3)
                 lines.append(f'{inner}{xss} = [{", ".join([base] * n_rows)}]')
-                fn.env[xss] = LL(ek, n_rows, fn.env[base].lb)
+                fn.env[xss] = LL(ek, n_rows, fn.env[base].lb, sf=fn.env[base].sf)
                 g = fn.alias_groups.get(base)
                 if g is None:
                     g = fn.next_group
@@ -1396,9 +1551,9 @@ class Gen:
             v = fn.fresh('v') if isinstance(h.ret, Sc) else fn.fresh('xs')
             out.append(f'{inner}{v} = {call}')
             if isinstance(h.ret, Sc):
-                fn.env[v] = Sc(h.ret.kind)
+                fn.env[v] = Sc(h.ret.kind, sf=h.ret_sf)
             else:
-                self.bind(fn, v, Li(h.ret.elem, h.ret.lb, False), alias_of=arg if h.kind == 'returns-arg' else None)
+                self.bind(fn, v, Li(h.ret.elem, h.ret.lb, False, sf=h.ret_sf), alias_of=arg if h.kind == 'returns-arg' else None)
                 if h.kind == 'returns-arg' and ch.bool(0.6):
                     # write through the returned handle, read through the original
                     t, _k = self.operand(fn, K, 0) if K.kind == ek else (None, None)
@@ -1412,7 +1567,7 @@ class Gen:
                     out.append(f'{inner}{w} = {r}[{ch.int(0, fn.env[r].lb - 1)}][0]')
                 else:
                     out.append(f'{inner}{w} = {r}[0]')
-                fn.env[w] = Sc(ek)
+                fn.env[w] = Sc(ek, sf=fn.env[r].sf)
                 if r not in fn.must_observe:
                     fn.must_observe.append(r)
             if 'p0' in h.mutates and readers:
@@ -1422,8 +1577,10 @@ class Gen:
             if base not in fn.must_observe:
                 fn.must_observe.append(base)
         else:
-            cands = self.vars_of(fn, lambda t: isinstance(t, LL) and t.elem == ek and t.lb >= pt.lb and t.inner_lb >= pt.inner_lb)
-            rows = self.lists(fn, lambda t: t.elem == ek and t.lb >= pt.inner_lb)
+            need_sf = pt.sf and self.no_negzero()
+            cands = self.vars_of(fn, lambda t: isinstance(t, LL) and t.elem == ek and t.lb >= pt.lb and t.inner_lb >= pt.inner_lb
+                                 and (t.sf or not need_sf))
+            rows = self.lists(fn, lambda t: t.elem == ek and t.lb >= pt.inner_lb and (t.sf or not need_sf))
             if not cands and not rows:
                 return None
             if rows and (not cands or ch.bool(0.6)):
@@ -1431,7 +1588,7 @@ class Gen:
                 xss = fn.fresh('xss')
                 n_rows = max(pt.lb, ch.int(1, 3))
                 lines.append(f'{inner}{xss} = [{", ".join([row] * n_rows)}]')
-                fn.env[xss] = LL(ek, n_rows, fn.env[row].lb)
+                fn.env[xss] = LL(ek, n_rows, fn.env[row].lb, sf=fn.env[row].sf)
                 g = fn.alias_groups.get(row)
                 if g is None:
                     g = fn.next_group
@@ -1452,11 +1609,11 @@ class Gen:
             out += lines
             v = fn.fresh('v')
             out.append(f'{inner}{v} = {call}')
-            fn.env[v] = Sc(h.ret.kind) if isinstance(h.ret, Sc) else Sc(ek)
+            fn.env[v] = Sc(h.ret.kind, sf=h.ret_sf) if isinstance(h.ret, Sc) else Sc(ek)
             for r in readers:
                 w = fn.fresh('v')
                 out.append(f'{inner}{w} = {r}[0]')
-                fn.env[w] = Sc(ek)
+                fn.env[w] = Sc(ek, sf=fn.env[r].sf)
                 if r not in fn.must_observe:
                     fn.must_observe.append(r)
             if xss not in fn.must_observe:
@@ -1477,6 +1634,9 @@ class Gen:
             if not isinstance(pt, Sc):
                 return None
             cands = self.scalars(fn, lambda k: fits(k, pt.kind))
+            if pt.sf and self.no_negzero():
+                # the callee is specialised on the argument's format: a parameter it treats as float-stored gets one
+                cands = [v for v in cands if fn.env[v].sf]
             if cands and ch.bool(0.7):
                 args.append(ch.choice(cands))
             else:
@@ -1486,6 +1646,11 @@ class Gen:
                         t = f'fp.round({t})'
                     else:
                         return None
+                if pt.sf and self.no_negzero() and not self.sf_of(fn, t, C):
+                    if not cands:
+                        self.excl('int-format-neg-zero')
+                        return None
+                    t = ch.choice(cands)
                 args.append(t)
         return f'{h.name}({", ".join(args)})'
 
@@ -1607,15 +1772,15 @@ class Gen:
         mutates = set()
         ek = assumed.kind
         if kind == 'writes-nested':
-            params.append(('p0', LL(ek, ch.int(1, 2), ch.int(1, 2))))
+            params.append(('p0', LL(ek, ch.int(1, 2), ch.int(1, 2), sf=ek in FLOATS)))
         elif kind != 'scalar':
             n = ch.int(1, 3)
-            params.append(('p0', Li(ek, n, False)))
+            params.append(('p0', Li(ek, n, False, sf=ek in FLOATS)))
             minlen['p0'] = n
         nsc = ch.int(1, 2)
         for i in range(nsc):
             k = ch.choice(['f32', 'f64', 'f64']) if assumed.is_float else assumed.kind
-            params.append((f'p{len(params)}', Sc(k)))
+            params.append((f'p{len(params)}', Sc(k, sf=k in FLOATS)))
         for n, t in params:
             fn.env[n] = t
             if isinstance(t, (Li, LL)):
@@ -1636,7 +1801,7 @@ class Gen:
                 i = fn.fresh('i')
                 body.append(f'    for {i} in range({minlen["p0"]}):')
                 u, _ = self.operand(fn, C, 0)
-                body.append(f'        p0[{i}] = (p0[{i}] {ch.choice(["+", "*"])} {u})')
+                body.append(f'        p0[{i}] = (p0[{i}] {self.pick_op(fn, C, "p0[0]", u, ["+", "*"])} {u})')
                 mutates.add('p0')
         if kind == 'writes-nested':
             t0 = params[0][1]
@@ -1652,13 +1817,16 @@ class Gen:
         fn.ret_kind = assumed.kind
         for _ in range(ch.int(0, 2)):
             self.stmt_simple(fn, C, '    ', body)
+        ret_sf = False
         if kind == 'returns-arg':
             body.append('    return p0')
             ret = Li(ek, minlen['p0'], False)
+            ret_sf = fn.env['p0'].sf
         elif kind == 'new-list':
             v = 'e0'
-            fn.env[v] = Sc(ek)
+            fn.env[v] = Sc(ek, sf=fn.env['p0'].sf)
             b, kk = self.elem_body(fn, C, 1, v)
+            ret_sf = self._body_sf
             del fn.env[v]
             body.append(f'    return [{b} for {v} in p0]')
             ret = Li(kk, minlen['p0'], False)
@@ -1668,20 +1836,23 @@ class Gen:
                 t, kk = f'({t} + {self.operand(fn, C, 0)[0]})', C.kind
             body.append(f'    return {t}')
             ret = Sc(kk)
+            ret_sf = self.sf_of(fn, t, C)
         ann = {Sc: 'fp.Real', Li: 'list[fp.Real]', LL: 'list[list[fp.Real]]'}
         sig = ', '.join(f'{n}: {ann[type(t)]}' for n, t in params)
         deco = '@fp.fpy' if own is None else f'@fp.fpy(ctx={own.text})'
         self.lines += [deco, f'def {name}({sig}):'] + body + ['']
         if own is not None:
             self.features.add('helper-declares-ctx')
-        return Helper(name, params, ret, own, assumed, mutates, minlen, kind)
+        h = Helper(name, params, ret, own, assumed, mutates, minlen, kind)
+        h.ret_sf = ret_sf
+        return h
 
     def stmt_simple(self, fn, C, ind, out):
         ch = self.ch
         v = fn.fresh('v')
         t, kk = self.num(fn, C, 2)
         out.append(f'{ind}{v} = {t}')
-        fn.env[v] = Sc(kk)
+        fn.env[v] = Sc(kk, sf=self.sf_of(fn, t, C))
 
     def gen_main(self):
         ch = self.ch
@@ -1694,14 +1865,14 @@ class Gen:
             r = ch.int(0, 99)
             if r < 50 or (self.p_lists == 0.0 and r < 90):
                 k = ch.weighted([(5, 'f32'), (7, 'f64'), (1, 's8'), (2, 's16'), (2, 's32'), (1, 'u8'), (1, 'u16'), (1, 's64'), (1, 'u32'), (3, 'x25')])
-                params.append((f'a{i}', Sc(k)))
+                params.append((f'a{i}', Sc(k, sf=k in FLOATS)))
             elif r < 88:
                 k = ch.choice(['f32', 'f64', 'f64', 'f32', 'f64', 'f64', 'x25'])
                 pinned = ch.bool(0.5)
                 lb = ch.int(1, 4) if pinned or ch.bool(0.8) else 0
-                params.append((f'a{i}', Li(k, lb, pinned)))
+                params.append((f'a{i}', Li(k, lb, pinned, sf=k in FLOATS)))
             elif r < 95:
-                params.append((f'a{i}', LL(ch.choice(['f32', 'f64']), ch.int(1, 2), ch.int(1, 3))))
+                params.append((f'a{i}', LL(ch.choice(['f32', 'f64']), ch.int(1, 2), ch.int(1, 3), sf=True)))
             else:
                 params.append((f'a{i}', Bo()))
         for nme, t in params:
